@@ -33,6 +33,8 @@ CLAIMS = {
                 note=_NOTE, technique="symbolic execution of sorted_search/FindInAll.find/get_last (CrossHair+z3) with symbolic list entries against a segment-wise reference"),
     "C10": dict(text=_X + ". The rewrite rules are checked as relations between two or more runs of the real code: at the unfold level with symbolic tokens, and on FindInList result sets with symbolic entries for enumerated (search, derived search) pairs.",
                 note=_NOTE, technique="symbolic execution (CrossHair+z3) of pairs of real searches related by the rewrite rules (metamorphic relations, inputs symbolic)"),
+    "C12": dict(text=_X + ". Finder.find/find_one/exists laws over a do_find stub yielding arbitrary symbolic strings; Sid.exists/children/siblings/leaf rule over a symbolic universe behind FindInAll (type-aware list source).",
+                note=_NOTE, technique="symbolic execution of Finder.find_one/exists and DataSid.exists/children/siblings (CrossHair+z3) over stubbed sources with symbolic content"),
 }
 
 NOT_APPLICABLE = {}
